@@ -223,7 +223,15 @@ for f in CV:           # proved in unit stdex (same text, both instantiations); 
     f.harness, f.props = None, []
 UNIT = Unit('driver', PRELUDE, CV + fns,
             consts=PC.UNINIT + PC.CONSTS)
-UNIT.const_rules = PC.CONST_RULES
+# C12 stack capacities for cstring_buffer: both expressions are grabbed from the real text (R9: N, EmptyRulesCount are ghost parameters)
+UNIT.consts = UNIT.consts + [
+    ('VX_CURSOR_STACK_CAP', r'struct parse_table_cursor_stack_type<buffers::cstring_buffer<N>, EmptyRulesCount>\s*\{\s*using type = stdex::cvector<size16_t,\s*([^>]+)>;', None),
+    ('VX_VALUE_STACK_CAP', r'std::enable_if_t<stdex::is_cvector_compatible<ValueVariantType>::value>\s*>\s*\{\s*using type = stdex::cvector<ValueVariantType,\s*([^>]+)>;', None)]
+from vx.lower import S as _S
+UNIT.const_rules = PC.CONST_RULES + [_S(r'\bN\b', 'P_BUFN', min=0, name='R9:N'), _S(r'\bEmptyRulesCount\b', 'P_EMPTY', min=0, name='R9:EmptyRulesCount')]
+stack_caps = Fn(name='vx_stack_caps', header=r'struct parse_table_cursor_stack_type<buffers::cstring_buffer<N>, EmptyRulesCount>', csig='size_t vx_stack_caps(void)',
+                fragment=lambda body: '{ return VX_CURSOR_STACK_CAP; }', between_ok=r'\s*')
+UNIT.fns.append(stack_caps)
 UNIT.enums = PC.ENUMS
 UNIT.facts = FACTS
 from vx.core import apply_spec
